@@ -286,6 +286,25 @@ theorem graphic_data_roundtrip_via_instance (gt : String) (finite : α → Bool)
   · intro ct hct
     simp only [getGraphicData, parseVia, sopHandsDownCoordinateType, if_true, guard_known_refuses (ctOf c) ct _ hct]
 
+/-- **Several groups per instance.**  Each group of a parsed instance keeps its own cache: within ANY interleaved
+history of accesses to the groups of one instance (`runInst`, positions into AnnotationGroupSequence, any coordinate
+types), what the group at position `i` answers is, access by access, what a freshly parsed object of that group answers
+to that single access — reads of other groups, before or in between, change nothing.  (`Model/Ann.lean` `stepInst` /
+`runInst`, tied by the stream `instance-history`.) -/
+theorem instance_groups_independent (gt : String) (finite : α → Bool) (dbl : Bool) (cast : α → α) (gd : GData α) (c : Nat)
+    (v : Valid gt finite cast gd c) (g : Group α) (hg : construct gt finite dbl cast gd = .ok g)
+    (gs : List (Group α)) (i : Nat) (hi : gs[i]? = some (parseVia (ctOf c) g)) (accs : List (Nat × Access)) :
+    projAns i (runInst gs accs) = (projAcc i accs).map (fun a => (accessS (parseVia (ctOf c) g) a).1) := by
+  rw [runInst_proj i accs gs _ hi]
+  exact (history_independent gt finite dbl cast gd c v g hg (projAcc i accs)).1
+
+/-- two groups of different dimensionality-independent content in one instance: reading group 1 first (with the right and
+with the wrong type) leaves group 0 as it was -/
+example : projAns 0 (runInst [parseVia 2 ({ gtype := "POINT", enc := exPointsEnc, cache := none } : Group Int),
+      parseVia 2 ({ gtype := "POINT", enc := { exPointsEnc with coords := [7, 8], numAnn := 1 }, cache := none } : Group Int)]
+    [(1, .whole 2), (1, .whole 3), (0, .nth 3 2), (1, .nth 1 2), (0, .whole 2)]) =
+    [.ok (.nth [[5, 6]]), .ok (.whole [[[1, 2]], [[3, 4]], [[5, 6]]])] := by decide
+
 /-! ## stored attributes (L1) -/
 
 /-- What is written: all coordinate values row by row (two columns when z is shared), the shared z in
